@@ -85,14 +85,23 @@ func c12Pay(c *fw.Ctx, i int) {
 	r := c.R
 	flex := r.Bool()
 	start := uint16(r.Pick(0, 1, 0x7FFE, 0x7FFF, 0x8000, 0x8005, 0xFFFF, 0xFFFE, r.Intn(65536)))
-	p := &codecs.VP9Payloader{FlexibleMode: flex, InitialPictureIDFn: func() uint16 { return start }}
+	p0 := &codecs.VP9Payloader{FlexibleMode: flex, InitialPictureIDFn: func() uint16 { return start }}
+	insts := []*codecs.VP9Payloader{p0}
 	nframes := r.Range(2, 6)
 	for k := 0; k < nframes; k++ {
 		if k > 0 && r.Chance(1, 6) {
 			// FlexibleMode is an exported field: the application switches mode between two frames
 			flex = !flex
-			p.FlexibleMode = flex
+			for _, q := range insts {
+				q.FlexibleMode = flex
+			}
 			c.Count("mode_switched_in_mid_stream", 1)
+		}
+		if k > 0 && len(insts) == 1 && r.Chance(1, 12) {
+			// the payloader is a plain struct: copied by value in mid-stream; the copy runs on as an instance of its own
+			cp := *p0
+			insts = append(insts, &cp)
+			c.Count("payloaders_copied_by_value_in_mid_stream", 1)
 		}
 		h := c12Header(r, false)
 		hb, _ := h.Encode()
@@ -118,131 +127,133 @@ func c12Pay(c *fw.Ctx, i int) {
 		if flex && r.Bool() {
 			frame = r.Bytes(r.Range(1, 3*mtu)) // flexible mode does not look at the frame
 		}
-		var pkts [][]byte
-		if pv, st := fw.Guard(func() { pkts = p.Payload(uint16(mtu), frame) }); pv != nil {
-			c.Fail("C12/payloader/panic/"+fw.PanicFunc(st), fmt.Sprintf("VP9Payloader.Payload panicked: %v", pv), fw.W("mtu", mtu, "frame", fw.Trunc(fw.Hex(frame), 200), "stack", st))
-			return
-		}
-		c.Evals(1)
-		wantID := (start&0x7FFF + uint16(k)) & 0x7FFF
-		wit := func(extra ...any) map[string]any {
-			m := fw.W("mode", map[bool]string{true: "flexible", false: "non-flexible"}[flex], "start_picture_id", start, "frame_index_on_instance", k, "expected_picture_id", wantID,
-				"mtu", mtu, "header", c12DescribeHeader(h), "frame", fw.Trunc(fw.Hex(frame), 120), "packets", fw.HexList(truncList(pkts, 32)))
-			for q := 0; q+1 < len(extra); q += 2 {
-				m[fmt.Sprint(extra[q])] = extra[q+1]
-			}
-			return m
-		}
-		if len(pkts) == 0 {
-			c.Fail("C12/payloader/no-packets", "no packet for a well-formed frame and a sufficient MTU", wit())
-			return
-		}
-		key := !flex && !h.NonKey && !h.ShowExisting
-		var cat []byte
-		for j, pk := range pkts {
-			if len(pk) > mtu {
-				c.Fail("C12/payloader/packet-exceeds-mtu", fmt.Sprintf("packet %d has %d bytes, MTU %d", j, len(pk), mtu), wit())
+		for _, p := range insts {
+			var pkts [][]byte
+			if pv, st := fw.Guard(func() { pkts = p.Payload(uint16(mtu), frame) }); pv != nil {
+				c.Fail("C12/payloader/panic/"+fw.PanicFunc(st), fmt.Sprintf("VP9Payloader.Payload panicked: %v", pv), fw.W("mtu", mtu, "frame", fw.Trunc(fw.Hex(frame), 200), "stack", st))
 				return
 			}
-			d, n, ok := ref.VP9Parse(pk)
-			if !ok {
-				c.Fail("C12/payloader/descriptor-malformed", fmt.Sprintf("packet %d: descriptor cut short", j), wit())
-				return
-			}
-			first, last := j == 0, j == len(pkts)-1
-			if d.B != first || d.E != last {
-				c.Fail("C12/payloader/b-e-bits", fmt.Sprintf("packet %d of %d: B=%v E=%v", j, len(pkts), d.B, d.E), wit())
-				return
-			}
-			if !d.I || !d.M {
-				c.Fail("C12/payloader/picture-id-form", fmt.Sprintf("packet %d: I=%v M=%v, a 15-bit picture id is required", j, d.I, d.M), wit())
-				return
-			}
-			if d.PictureID != wantID {
-				sig := "C12/payloader/picture-id-value"
-				if start >= 0x8000 {
-					sig += "/start-with-bit-15"
-				} else if wantID < start&0x7FFF {
-					sig += "/after-wrap"
+			c.Evals(1)
+			wantID := (start&0x7FFF + uint16(k)) & 0x7FFF
+			wit := func(extra ...any) map[string]any {
+				m := fw.W("mode", map[bool]string{true: "flexible", false: "non-flexible"}[flex], "start_picture_id", start, "frame_index_on_instance", k, "expected_picture_id", wantID,
+					"mtu", mtu, "header", c12DescribeHeader(h), "frame", fw.Trunc(fw.Hex(frame), 120), "packets", fw.HexList(truncList(pkts, 32)))
+				for q := 0; q+1 < len(extra); q += 2 {
+					m[fmt.Sprint(extra[q])] = extra[q+1]
 				}
-				c.Fail(sig, fmt.Sprintf("packet %d carries picture id %d, expected %d", j, d.PictureID, wantID), wit())
+				return m
+			}
+			if len(pkts) == 0 {
+				c.Fail("C12/payloader/no-packets", "no packet for a well-formed frame and a sufficient MTU", wit())
 				return
 			}
-			if d.F != flex {
-				c.Fail("C12/payloader/f-bit", fmt.Sprintf("packet %d: F=%v in %v mode", j, d.F, flex), wit())
-				return
-			}
-			if !flex && !h.ShowExisting {
-				if d.P != h.NonKey {
-					c.Fail("C12/payloader/p-bit", fmt.Sprintf("packet %d: P=%v for a frame with frame_type non-key=%v", j, d.P, h.NonKey), wit())
+			key := !flex && !h.NonKey && !h.ShowExisting
+			var cat []byte
+			for j, pk := range pkts {
+				if len(pk) > mtu {
+					c.Fail("C12/payloader/packet-exceeds-mtu", fmt.Sprintf("packet %d has %d bytes, MTU %d", j, len(pk), mtu), wit())
 					return
 				}
-				wantV := key && first
-				if d.V != wantV {
-					c.Fail("C12/payloader/ss-presence", fmt.Sprintf("packet %d of %d: V=%v (key frame: %v)", j, len(pkts), d.V, key), wit())
+				d, n, ok := ref.VP9Parse(pk)
+				if !ok {
+					c.Fail("C12/payloader/descriptor-malformed", fmt.Sprintf("packet %d: descriptor cut short", j), wit())
 					return
 				}
-				if wantV {
-					if !d.Y || len(d.W) != 1 || len(d.H) != 1 || d.NS != 0 {
-						c.Fail("C12/payloader/ss-shape", fmt.Sprintf("scalability structure: N_S=%d Y=%v", d.NS, d.Y), wit())
-						return
-					}
-					if d.W[0] != h.WidthMinus1+1 || d.H[0] != h.HeightMinus1+1 {
-						c.Fail(fmt.Sprintf("C12/payloader/ss-resolution-differs/profile-%d/colour-space-%d", h.Profile, h.ColorSpace),
-							fmt.Sprintf("scalability structure says %dx%d, the uncompressed header codes %dx%d", d.W[0], d.H[0], uint32(h.WidthMinus1)+1, uint32(h.HeightMinus1)+1), wit())
-						return
-					}
-					c.Count("key_frames_with_matching_ss", 1)
+				first, last := j == 0, j == len(pkts)-1
+				if d.B != first || d.E != last {
+					c.Fail("C12/payloader/b-e-bits", fmt.Sprintf("packet %d of %d: B=%v E=%v", j, len(pkts), d.B, d.E), wit())
+					return
 				}
+				if !d.I || !d.M {
+					c.Fail("C12/payloader/picture-id-form", fmt.Sprintf("packet %d: I=%v M=%v, a 15-bit picture id is required", j, d.I, d.M), wit())
+					return
+				}
+				if d.PictureID != wantID {
+					sig := "C12/payloader/picture-id-value"
+					if start >= 0x8000 {
+						sig += "/start-with-bit-15"
+					} else if wantID < start&0x7FFF {
+						sig += "/after-wrap"
+					}
+					c.Fail(sig, fmt.Sprintf("packet %d carries picture id %d, expected %d", j, d.PictureID, wantID), wit())
+					return
+				}
+				if d.F != flex {
+					c.Fail("C12/payloader/f-bit", fmt.Sprintf("packet %d: F=%v in %v mode", j, d.F, flex), wit())
+					return
+				}
+				if !flex && !h.ShowExisting {
+					if d.P != h.NonKey {
+						c.Fail("C12/payloader/p-bit", fmt.Sprintf("packet %d: P=%v for a frame with frame_type non-key=%v", j, d.P, h.NonKey), wit())
+						return
+					}
+					wantV := key && first
+					if d.V != wantV {
+						c.Fail("C12/payloader/ss-presence", fmt.Sprintf("packet %d of %d: V=%v (key frame: %v)", j, len(pkts), d.V, key), wit())
+						return
+					}
+					if wantV {
+						if !d.Y || len(d.W) != 1 || len(d.H) != 1 || d.NS != 0 {
+							c.Fail("C12/payloader/ss-shape", fmt.Sprintf("scalability structure: N_S=%d Y=%v", d.NS, d.Y), wit())
+							return
+						}
+						if d.W[0] != h.WidthMinus1+1 || d.H[0] != h.HeightMinus1+1 {
+							c.Fail(fmt.Sprintf("C12/payloader/ss-resolution-differs/profile-%d/colour-space-%d", h.Profile, h.ColorSpace),
+								fmt.Sprintf("scalability structure says %dx%d, the uncompressed header codes %dx%d", d.W[0], d.H[0], uint32(h.WidthMinus1)+1, uint32(h.HeightMinus1)+1), wit())
+							return
+						}
+						c.Count("key_frames_with_matching_ss", 1)
+					}
+				}
+				// VP9Packet must agree
+				var vp codecs.VP9Packet
+				var body []byte
+				var err error
+				var head bool
+				if pv, st := fw.Guard(func() {
+					body, err = vp.Unmarshal(pk)
+					head = vp.IsPartitionHead(pk)
+				}); pv != nil {
+					c.Fail("C12/decoder/panic/"+fw.PanicFunc(st), fmt.Sprintf("VP9Packet panicked on payloader output: %v", pv), wit("stack", st))
+					return
+				}
+				if err != nil {
+					c.Fail("C12/roundtrip/vp9packet-rejects-payloader-output", err.Error(), wit())
+					return
+				}
+				if !bytes.Equal(body, pk[n:]) {
+					c.Fail("C12/roundtrip/vp9packet-payload-differs", fmt.Sprintf("VP9Packet returns %d bytes, the descriptor is %d bytes long", len(body), n), wit())
+					return
+				}
+				if head != first || vp.B != first || vp.E != last || vp.PictureID != wantID {
+					c.Fail("C12/roundtrip/vp9packet-fields", fmt.Sprintf("VP9Packet: head=%v B=%v E=%v PictureID=%d", head, vp.B, vp.E, vp.PictureID), wit())
+					return
+				}
+				cat = append(cat, body...)
 			}
-			// VP9Packet must agree
-			var vp codecs.VP9Packet
-			var body []byte
-			var err error
-			var head bool
-			if pv, st := fw.Guard(func() {
-				body, err = vp.Unmarshal(pk)
-				head = vp.IsPartitionHead(pk)
-			}); pv != nil {
-				c.Fail("C12/decoder/panic/"+fw.PanicFunc(st), fmt.Sprintf("VP9Packet panicked on payloader output: %v", pv), wit("stack", st))
+			if !bytes.Equal(cat, frame) {
+				c.Fail("C12/payloader/concatenation-differs", fmt.Sprintf("packet payloads concatenate to %d bytes, the frame has %d", len(cat), len(frame)), wit())
 				return
 			}
-			if err != nil {
-				c.Fail("C12/roundtrip/vp9packet-rejects-payloader-output", err.Error(), wit())
-				return
+			c.Count("frames_lossless", 1)
+			if len(pkts) >= 2 || key {
+				fc := "1"
+				if len(pkts) == 2 {
+					fc = "2"
+				} else if len(pkts) > 2 {
+					fc = "n"
+				}
+				kind := "k"
+				if h.ShowExisting {
+					kind = "s"
+				} else if h.NonKey {
+					kind = "n"
+				}
+				c.Shapef("pay|flex%v|%s|p%d|cs%d|mtu%s|f%s|wrap%v", flex, kind, h.Profile, h.ColorSpace, lenClassS(mtu), fc, wantID < 4 || wantID > 0x7FFC)
 			}
-			if !bytes.Equal(body, pk[n:]) {
-				c.Fail("C12/roundtrip/vp9packet-payload-differs", fmt.Sprintf("VP9Packet returns %d bytes, the descriptor is %d bytes long", len(body), n), wit())
-				return
+			if k == 0 && c.WantSample() {
+				c.Sample(map[string]any{"mode_flexible": flex, "start_picture_id": start, "frames": nframes, "first_frame_header": c12DescribeHeader(h), "first_frame_packets": len(pkts)})
 			}
-			if head != first || vp.B != first || vp.E != last || vp.PictureID != wantID {
-				c.Fail("C12/roundtrip/vp9packet-fields", fmt.Sprintf("VP9Packet: head=%v B=%v E=%v PictureID=%d", head, vp.B, vp.E, vp.PictureID), wit())
-				return
-			}
-			cat = append(cat, body...)
-		}
-		if !bytes.Equal(cat, frame) {
-			c.Fail("C12/payloader/concatenation-differs", fmt.Sprintf("packet payloads concatenate to %d bytes, the frame has %d", len(cat), len(frame)), wit())
-			return
-		}
-		c.Count("frames_lossless", 1)
-		if len(pkts) >= 2 || key {
-			fc := "1"
-			if len(pkts) == 2 {
-				fc = "2"
-			} else if len(pkts) > 2 {
-				fc = "n"
-			}
-			kind := "k"
-			if h.ShowExisting {
-				kind = "s"
-			} else if h.NonKey {
-				kind = "n"
-			}
-			c.Shapef("pay|flex%v|%s|p%d|cs%d|mtu%s|f%s|wrap%v", flex, kind, h.Profile, h.ColorSpace, lenClassS(mtu), fc, wantID < 4 || wantID > 0x7FFC)
-		}
-		if k == 0 && c.WantSample() {
-			c.Sample(map[string]any{"mode_flexible": flex, "start_picture_id": start, "frames": nframes, "first_frame_header": c12DescribeHeader(h), "first_frame_packets": len(pkts)})
 		}
 	}
 }
@@ -445,6 +456,21 @@ func c12Dec(c *fw.Ctx, i int) {
 		if !bytes.Equal(body, in[len(enc):]) || !bytes.Equal(vp.Payload, in[len(enc):]) {
 			c.Fail("C12/decoder/payload-differs", fmt.Sprintf("returned %d bytes, %d follow the descriptor", len(body), plen), wit)
 			return
+		}
+		{
+			// the receiver's zero-allocation setting may trim what is stored, never what "the bytes after the descriptor" are
+			var z codecs.VP9Packet
+			z.SetZeroAllocation(true)
+			var zb []byte
+			var zerr error
+			if pv, st := fw.Guard(func() { zb, zerr = z.Unmarshal(fw.Exact(in)) }); pv != nil {
+				c.Fail("C12/decoder/panic/"+fw.PanicFunc(st), fmt.Sprintf("VP9Packet.Unmarshal (zero-allocation) panicked: %v", pv), fw.W("input", fw.Hex(in), "stack", st))
+				return
+			}
+			if zerr != nil || !bytes.Equal(zb, in[len(enc):]) {
+				c.Fail("C12/decoder/zero-allocation-receiver/payload-differs", fmt.Sprintf("a zero-allocation VP9Packet returns %d bytes (err %v), %d follow the descriptor", len(zb), zerr, plen), wit)
+				return
+			}
 		}
 		if head := (&codecs.VP9Packet{}).IsPartitionHead(in); head != d.B {
 			c.Fail("C12/ispartitionhead/differs-from-b-bit", fmt.Sprintf("IsPartitionHead = %v for a descriptor with B=%v (first octet %#02x)", head, d.B, in[0]), wit)
